@@ -42,6 +42,11 @@ def run(ctx) -> None:
     # P5: Lemma B is about a search over the whole stream from its first character (no pos/endpos, no slice)
     from ._matchrules import scan_rules
     scan_rules(ctx, "C07.P5.scan-starts-at-stream-start", "C07.P5.scan-over-whole-stream")
+    # Z: end to end on stream templates: the compiled regex of whole rules, under each flag setting, searched in token
+    # templates of the instruction stream (every instantiation at once): found exactly where the property says, else not
+    from ..models import make_interp as _mk
+    from ..streamshapes import end_to_end
+    end_to_end(ctx, _mk(ctx.p), "C07", "C07.Z.found-where-the-property-says", "C07.Z.not-found-elsewhere")
     # P3 shipped macro file
     f = ctx.p.root / "tests" / "macros" / "jasm_macros.yaml"
     if not f.exists():
